@@ -838,4 +838,105 @@ theorem Cut.predict_sound (O : Oracle) (M : List Cps) (c : Cut) (h : c.ok = true
       Open.predict_sound O _ eof he inner hinner]
     rfl
 
+/-! ## the certificate search is faithful: it always returns a division of exactly the given token list -/
+
+theorem upto_append (m : Mode) (st : Option Tok) (ts : List Tok) :
+    (upto m st ts).1 ++ (upto m st ts).2 = (match st with | some s => s :: ts | none => ts) := by
+  unfold upto
+  cases st with
+  | none => simp [uptoLoop_append]
+  | some s => simp [uptoLoop_append]
+
+theorem takeUnits_flatten (unitB : List Tok → Bool) (cand : Tok → List Tok → List Tok × List Tok)
+    (hc : ∀ t rest, (cand t rest).1 ++ (cand t rest).2 = t :: rest) (f : Nat) (ts : List Tok) :
+    (takeUnits unitB cand f ts).1.flatten ++ (takeUnits unitB cand f ts).2 = ts := by
+  induction f generalizing ts with
+  | zero => simp [takeUnits]
+  | succ n ih =>
+    cases ts with
+    | nil => simp [takeUnits]
+    | cons t rest =>
+      simp only [takeUnits]
+      split
+      · simp only [List.flatten_cons, List.append_assoc]
+        rw [ih (cand t rest).2, hc t rest]
+      · simp
+
+theorem candStmt_append (t : Tok) (rest : List Tok) : (candStmt t rest).1 ++ (candStmt t rest).2 = t :: rest := by
+  unfold candStmt
+  split
+  · simp
+  · exact upto_append .default (some t) rest
+
+theorem candMedia_append (t : Tok) (rest : List Tok) :
+    (candMedia t rest).1 ++ (candMedia t rest).2 = t :: rest := by
+  unfold candMedia
+  split
+  · simp
+  · exact upto_append .default (some t) rest
+
+theorem candDecl_append (t : Tok) (rest : List Tok) : (candDecl t rest).1 ++ (candDecl t rest).2 = t :: rest := by
+  unfold candDecl
+  split
+  · simp
+  · split
+    · exact upto_append .default (some t) rest
+    · exact upto_append .semicolon (some t) rest
+
+theorem findOpen_toks (f : Nat) (rem : List Tok) : (findOpen f rem).toks = rem := by
+  induction f generalizing rem with
+  | zero => simp [findOpen, Open.toks]
+  | succ n ih =>
+    cases rem with
+    | nil => simp [findOpen, Open.toks]
+    | cons t rest =>
+      simp only [findOpen]
+      split
+      · -- @media
+        split
+        · simp [Open.toks]
+        · next mq lb hu =>
+          split
+          · simp only [Open.toks, ih]
+            rw [takeUnits_flatten mediaUnitB candMedia candMedia_append]
+            have h1 := unsnoc_eq _ _ _ hu
+            have h2 := upto_append .mq none rest
+            simp only at h2
+            rw [h1] at h2
+            simp at h2
+            simp [h2]
+          · simp [Open.toks]
+      · split
+        · next t' sel' lb hu =>
+          split
+          · simp only [Open.toks]
+            rw [takeUnits_flatten declUnitB candDecl candDecl_append]
+            have h1 := unsnoc_eq _ _ _ hu
+            have h2 := upto_append .blockstart none (t :: rest)
+            simp only at h2
+            rw [h1] at h2
+            simp only [List.cons_append, List.append_assoc, List.singleton_append, List.cons.injEq] at h2
+            simpa using h2.2
+          · simp [Open.toks]
+        · simp [Open.toks]
+
+/-- **the search is faithful**: for every non-empty token list `findCut` returns a certificate that divides
+exactly this list (so the driver's comparison `c.toks = ts` can never fail; only `Cut.ok` decides) -/
+theorem findCut_toks (ts : List Tok) (h : ts ≠ []) : ∃ c, findCut ts = some c ∧ c.toks = ts := by
+  unfold findCut
+  cases hu : unsnoc ts with
+  | none =>
+    exfalso
+    unfold unsnoc at hu
+    have : ts.getLast? ≠ none := by simpa using h
+    split at hu
+    · simp at hu
+    · next hn => exact this hn
+  | some p =>
+    obtain ⟨body, eof⟩ := p
+    refine ⟨_, rfl, ?_⟩
+    simp only [Cut.toks, findOpen_toks]
+    rw [← List.append_assoc, takeUnits_flatten stmtUnitB candStmt candStmt_append]
+    exact (unsnoc_eq _ _ _ hu).symm
+
 end CssVerif.Struct
